@@ -115,7 +115,7 @@ KINDS = [
 ]
 
 
-def gen_edit(rng, p, kinds=None, hint=None):
+def gen_edit(rng, p, kinds=None, hint=None, standalone=False):
     """valid edit(s) for the current state of the live problem p: a list of edits (composites), or None"""
     C, S, M, T, U = p.cells.objects, p.surfaces.objects, p.materials.objects, p.transforms.objects, p.universes.objects
     mode = sorted(ci.part_name(x) for x in p.mode.particles)
@@ -190,7 +190,9 @@ def gen_edit(rng, p, kinds=None, hint=None):
                     return [[k, i, None]]
                 return [[k, i, rng.choice(cand)]]
         if k == "fillTransform" and T and not p.print_in_data_block["fill"]:
-            i = pick(i for i, c in enumerate(C) if not c.fill.multiple_universes and c.fill.universe is not None)
+            # a FILL read without a transform does not get one written (known finding C03-F1): only generated alone
+            i = pick(i for i, c in enumerate(C) if not c.fill.multiple_universes and c.fill.universe is not None
+                     and (standalone or any(getattr(n, "value", None) == "(" for n in c._fill._tree["data"])))
             if i is not None:
                 if C[i].fill.transform is not None and rng.random() < 0.3:
                     return [[k, i, None]]
@@ -260,18 +262,20 @@ def gen_edit(rng, p, kinds=None, hint=None):
             if i is not None:
                 return [[k, i, rng.random() < 0.5]]
         if k == "mainToAux" and T:
-            i = pick(i for i, t in enumerate(T) if len(t.rotation_matrix) in (0, 9))
+            # without a full rotation matrix M cannot be written (known finding C03-F2): only generated alone
+            i = pick(i for i, t in enumerate(T) if len(t.rotation_matrix) == 9 or (standalone and len(t.rotation_matrix) == 0))
             if i is not None:
                 return [[k, i, rng.random() < 0.5]]
-        if k == "modeAdd":
+        has_mode_card = any(d is p.mode for d in p.data_inputs)
+        if k == "modeAdd" and (has_mode_card or standalone):  # no MODE card: known finding C03-F4, only alone
             cand = [a for a in ("n", "p", "e") if a not in mode]
             if cand:
                 a = rng.choice(cand)
                 return [[k, a]] + [["importance", i, a, ci.enc(rng.choice([1.0, 0.0, 2.0]))] for i in range(len(C))]
-        if k == "modeRemove" and len(mode) > 1 and kinds == ["modeRemove"]:
+        if k == "modeRemove" and len(mode) > 1 and standalone:
             # removing a particle leaves its importances behind (known finding C03-F3): only generated alone
             return [[k, rng.choice(mode)]]
-        if k == "modeSet" and rng.random() < 0.3:
+        if k == "modeSet" and rng.random() < 0.3 and (has_mode_card or standalone):
             return [[k, mode]]
         if k == "title":
             return [[k, rng.choice(["edited title", "New Title 2", "x", "title with $ and &"])]]
@@ -420,6 +424,8 @@ def judge(case, res, den_base, den_written):
     t0 = ci.table(den_base)
     place = _placement(den_base)
     t_exp = dict(t0)
+    A["fill_tail"] = {i: list(t0[("cell", i, "fill", None)][1:]) for i in range(len(A["cell_number"]))
+                      if A["fill_tr"][i] is not None and A["fill_tr"][i] >= len(A["tr_number"]) and t0.get(("cell", i, "fill", None))}
     touched = Touched()
     for k, (e, st) in enumerate(zip(script, res["steps"])):
         if st["out"] != "ok":
@@ -439,6 +445,10 @@ def judge(case, res, den_base, den_written):
             continue
         if a is not None and b is not None and ci.close(a, b):
             continue
+        if key[0] == "data" and key not in t0 and key not in t_exp:
+            first = script[0][0] if script else "-"
+            sig = {"mechanism": "edit", "class": "spurious-card"}
+            return sig, f"the written file has an input {key[1]!r} {_show(b)} that neither the original nor the edited reference has (a value appended behind the end of a line starts in column 1)", len(script)
         if key in touched:
             cls = "not-written" if (t0.get(key) is None and b is None) or (t0.get(key) is not None and b is not None and ci.close(t0[key], b)) else "wrong-value"
             q = ci.QUANTITY_OF_OP[touched.by[key]]
@@ -552,6 +562,8 @@ def written_of_table(t1, A, wprobes):
 
 
 def compare_written(res, rm, den_written, A_end):
+    if len(den_written["cells"]) != len(res["A0"]["cell_number"]) or len(den_written["surfaces"]) != len(res["A0"]["surf_number"]):
+        return None  # not a problem of G (see judge)
     t1 = ci.table(den_written)
     w = res["ser"]["wprobes"]
     impl = written_of_table(t1, A_end, w)
@@ -562,9 +574,19 @@ def compare_written(res, rm, den_written, A_end):
         if a == {"val": None}:
             a = "absent"
         # an importance tree of a particle that is not printed, a density of a void cell: the file has nothing
-        if a != ci.canon_obs(b):
+        b = ci.canon_obs(b)
+        if a != b and not _num_close(a, b):
             return f"written table: {k}: model {a}, file {b}"
     return None
+
+
+def _num_close(a, b):
+    """the file holds decimal text, the model the exact double: equal within the library tolerance (C05 owns precision)"""
+    try:
+        x, y = Fraction(*a["val"]["n"]), Fraction(*b["val"]["n"])
+    except (TypeError, KeyError):
+        return False
+    return spec.is_close(x, y)
 
 
 # --------------------------------------------------------------------------- cases
@@ -603,6 +625,23 @@ def _gen_case(args):
     if script is None:
         return None
     return {"text": text, "limit": limit, "script": script}
+
+
+def _gen_alone(args):
+    """a single edit of a kind that is only generated alone (triggers of known findings)"""
+    import random
+    import warnings
+
+    warnings.simplefilter("ignore")
+    seed, text, limit, kind = args
+    rng = random.Random(seed)
+    with wholefile.Scratch() as sc:
+        try:
+            p = wholefile.read_text(text, limit, sc)
+        except Exception:  # noqa: BLE001
+            return None
+        es = gen_edit(rng, p, [kind], None, standalone=True)
+    return None if es is None else {"text": text, "limit": limit, "script": es}
 
 
 def _eval(case):
@@ -672,7 +711,8 @@ def run(chk):
         jobs.append((rng.getrandbits(48), text, limit, rng.randint(1, 12)))
     corpus = load_corpus()
     gen = [c for c in pmap(_gen_case, jobs) if c is not None]
-    gen += [{"text": t, "limit": 128, "script": [["modeRemove", "p"]]} for t in TINY]
+    gen += [c for c in pmap(_gen_alone, [(rng.getrandbits(48), t, l, k) for (t, l) in texts[: chk.pick(40, 200)]
+                                         for k in ("fillTransform", "mainToAux", "modeAdd", "modeRemove")]) if c is not None]
     cases = corpus + gen + exhaustive_cases(chk)
     chk.units["U-setter"] = {"corpus": len(corpus), "random_scripts": len(gen), "exhaustive_single_edits": len(cases) - len(corpus) - len(gen)}
     chk.exhaustive = False
@@ -777,7 +817,7 @@ def exhaustive_cases(chk):
                 rng = random.Random(hash((kind, hint)) & 0xFFFF)
                 with wholefile.Scratch() as sc:
                     p = wholefile.read_text(text, 128, sc)
-                    es = gen_edit(rng, p, [kind], hint)
+                    es = gen_edit(rng, p, [kind], hint, standalone=True)
                 if es is None:
                     continue
                 out.append({"text": text, "limit": 128, "script": es})
